@@ -178,7 +178,12 @@ def run(ctx):
                 "programs_exhaustive",
                 # shapes repaired in /repo (4accfb7, 3c18dfa, dfc60cc, 86f919b): ordinary cases now
                 "feat_shape_lit_signed_narrow", "feat_shape_const_cast_shared", "feat_shape_const_left_unsigned",
-                "feat_shape_named_result_zero"]
+                "feat_shape_named_result_zero",
+                # if/else whose branches each hold an else-less inner if assigning the same variable the same
+                # value under different computed conditions (pending selects that differ only in the condition)
+                "feat_twin_if_same_value", "feat_twin_if_value_constant", "feat_twin_if_value_variable",
+                "feat_twin_if_deeper", "feat_twin_if_mixed_assign", "feat_twin_if_two_variables",
+                "feat_twin_if_early_return"]
         missing = [k for k in need if c.get(k, 0) == 0]
         ctx.oblige("generator reached every listed language feature (%d features)" % len(need), not missing,
                    "never generated: %s" % missing)
@@ -189,7 +194,7 @@ def run(ctx):
         "constant shifts incl. >= width, comparisons, && || !, casts, unary minus, variable and constant indexing, "
         "fields, calls with 1..3 results incl. nested and `return f(..)`, named results; var/:=, assignment incl. "
         "op-assign/++/--, elements and fields, if/else-if/else with early return, for loops with < <= > >= != and "
-        "steps +-1..3, nested, return inside loops); 45% of the programs have <= 12 (thorough: <= 14/16) input bits "
+        "steps +-1..3, nested, return inside loops; twin ifs: if/else whose branches each contain an else-less inner if assigning the same variable(s) the same constant/variable under different computed conditions, also one level deeper, with early return, mixed with other assignments; the assigned variables are folded into the results); 45% of the programs have <= 12 (thorough: <= 14/16) input bits "
         "and are evaluated on ALL inputs (per-program claim complete), the others on 24/48 boundary-biased tuples "
         "(0, 1, -1, min, max, min+1, -2, 0x55.., small, random per scalar component); distinct = distinct program "
         "S-expressions; ~5% of the programs are probes of the remaining known deviations (inner-block redeclaration, int->wider uint cast, signed widening of a top-bit-set constant; tagged, matched narrowly); the shapes repaired in /repo (untyped literal vs narrow signed operand, constant conversion sharing `$n`, constant on the left of an unsigned comparison, named result read before assignment) occur in ordinary programs and must agree")
